@@ -2056,6 +2056,7 @@ def install_members(reg):
         zf = VExt("ZipFile")
         st.assume(ZN(zf.t) >= 0)
         st.ghost["zip_source"] = args[0] if args else None
+        st.ghost["zip_objects"] = st.ghost.get("zip_objects", ()) + (zf.t,)
         return [(st, zf)]
     reg.ext_models[("new", "zipfile.ZipFile")] = new_zip
     reg.ext_models[("with", "ZipFile")] = with_passthrough
@@ -2071,6 +2072,7 @@ def install_members(reg):
     def zip_read(ex, st, obj, args, kwargs, node):
         """zf.read(info): ASSUMED to return the member's bytes, or to raise RuntimeError (encrypted member)."""
         bad = st.fork()
+        bad.ghost["zip_read_refused"] = True
         ex.raise_in(bad, ex.mk_exc("RuntimeError"))
         a = args[0]
         if isinstance(a, VExt) and a.sort == "ZipInfo":
@@ -2351,12 +2353,26 @@ def member_contracts(reg_models=None):
         return z3.And(conj + [z3.BoolVal(True)])
 
     ENC = "ExtractionFileEncryptedError"
+
+    def zip_encrypted_when(c):
+        """APPNOTE 4.4.4: general purpose bit 0 set = the member is encrypted (strong encryption, bit 6, implies bit 0); every
+        other bit (deflate option bits 1-2, data descriptor 3, UTF-8 names 11, ...) says nothing about readability.  The whole
+        archive may be refused as encrypted only if some listed entry carries bit 0, or if zipfile itself refuses a member at
+        read time (RuntimeError: the ASSUMED behaviour of ZipFile.read on an encrypted member)."""
+        if c.st.ghost.get("zip_read_refused"):
+            return z3.BoolVal(True)
+        zfs = c.st.ghost.get("zip_objects", ())
+        if not zfs:
+            return z3.BoolVal(False)
+        j = z3.Int("j!enc")
+        return z3.Or([z3.Exists([j], z3.And(j >= 0, j < ZN(zf), z3.Extract(0, 0, ZFLAGS(ZINFO(zf, j))) == 1)) for zf in zfs])
+
     out.append(FnContract(
         target=f"{ARCH}::_extract_from_zip_optimized",
         params=[("file_like", p_ext("Stream7z")), ("archive_path", p_opt(p_str()))],
         generator=True,
         ensures=[completes("selects-the-visible-supported-members-in-infolist-order", "each-selected-member-dispatched-with-its-own-bytes-name-basename"), ("container-opened-on-the-given-bytes", internal(lambda c: z3.BoolVal(c.st.ghost.get("zip_source") is c.args["file_like"])))],
-        raises=[Raises(ENC, label="an entry is encrypted"), Raises("Exception", sub=True, label="the container could not be opened",
+        raises=[Raises(ENC, label="an entry is encrypted", when=zip_encrypted_when), Raises("Exception", sub=True, label="the container could not be opened",
                                                                   when=lambda c: z3.BoolVal(c.exc is not None and c.exc.attrs.get("site") == "zipfile.ZipFile()")),
                 Raises("ExtractionFailedError", label="BadZipFile from the constructor")],
         loops=merged(role(is_seq("ZipInfo"), "selects-the-visible-supported-members-in-infolist-order", zip_sel_inv),
